@@ -217,7 +217,21 @@ def consensus(
     super_reads = [[], []]
     components = dict()
 
+    # Variants that are already phased in the input keep their phase set and their
+    # haplotype order, whether or not the tagged reads vote for them (the VCF writer
+    # removes all existing phase information and re-adds only what is passed to it)
+    already_phased = set()
+    for pos, phase in phased.items():
+        if phase is None or phase.block_id is None or len(phase.phase) != 2:
+            continue
+        already_phased.add(pos)
+        components[pos] = int(phase.block_id) - 1
+        for haplotype in (0, 1):
+            super_reads[haplotype].append(Variant(pos, allele=phase.phase[haplotype], quality=0))
+
     for pos, vote in votes.items():
+        if pos in already_phased:
+            continue
         best_allele, phase_set, fraction, score = best_candidate(vote)
         components[pos] = phase_set
         if phased[pos] is None:
